@@ -302,7 +302,7 @@ func bufObj(s *State, v Value) (*Obj, int) {
 	panic(fmt.Sprintf("buffer argument %T", v))
 }
 
-func unread(o *Obj) *Bytes { return SliceBytes(o.B, o.R, o.B.Len) }
+func unread(o *Obj) *Bytes   { return SliceBytes(o.B, o.R, o.B.Len) }
 func unreadLen(o *Obj) *Term { return Sub(o.B.Len, o.R) }
 
 func sliceContent(s *State, sl *SliceV) *Bytes {
@@ -1080,9 +1080,47 @@ func (e *Engine) crc32(s *State, data *Bytes) *Term {
 			return crc32Model(d.Vec)
 		}
 	}
+	if r := e.crcLookup(s, d); r != nil {
+		return r
+	}
 	r := e.freshVar("crc32", 32)
 	crcLog = append(crcLog, crcCall{Data: data, Res: r})
 	return r
+}
+
+// crcLookup: CRC-32 is a function of its argument: reuse the result of an earlier call on a provably equal sequence.
+func (e *Engine) crcLookup(s *State, d *Bytes) *Term {
+	for i := len(crcLog) - 1; i >= 0; i-- {
+		en := crcLog[i]
+		ed := en.Data.Norm()
+		if ed.Vec != nil && d.Vec != nil {
+			if len(ed.Vec) != len(d.Vec) {
+				continue
+			}
+			same := true
+			for j := range d.Vec {
+				if d.Vec[j] != ed.Vec[j] {
+					same = false
+					break
+				}
+			}
+			if same {
+				return en.Res
+			}
+			continue
+		}
+		if Eq(ed.Len, d.Len) == False {
+			continue
+		}
+		eq := textEq(ed, d, 2048)
+		if eq == True {
+			return en.Res
+		}
+		if eq != False && e.checkSat(s, Not(eq)) == "unsat" {
+			return en.Res
+		}
+	}
+	return nil
 }
 
 // ---------------------------------------------------------------- merge at return
